@@ -145,7 +145,7 @@ static uint64_t log_hash(const vs_slot &s) {
 // ---------------------------------------------------------------- one execution (worker side)
 static void run_execution(WorkerShm &w, const VProgram &p, const Prefix &pre, bool prune = false, int prog_index = 0) {
     vs_options opt{};
-    opt.unlock_points = p.unlock_points; opt.spurious = p.spurious;
+    opt.unlock_points = p.unlock_points; opt.spurious = p.spurious; opt.create_faults = p.create_faults;
     opt.horizon = p.horizon;
     opt.prefix = pre.choice.data(); opt.prefix_len = (int)pre.choice.size();
     opt.exp_nalt = pre.nalt.empty() ? nullptr : pre.nalt.data();
@@ -433,6 +433,7 @@ static std::string event_str(const vs_ev &e) {
     case VS_EV_CREATE: n = "creates-thread"; break; case VS_EV_JOINED: n = "joined-thread"; break;
     case VS_EV_SIGNAL: n = "notify_one(cv,woken)"; break; case VS_EV_BROADCAST: n = "notify_all(cv,waiters)"; break;
     case VS_EV_TIMEOUT: n = "timed-wait-expires"; break;
+    case VS_EV_CREATE_FAILED: n = "thread-creation-fails(EAGAIN)"; break;
     }
     char b[128]; snprintf(b, sizeof b, "t%d %s a=%d b=%ld kind=%d", e.tid, n, e.a, (long)e.b, e.kind);
     return b;
